@@ -1,6 +1,7 @@
 import Cadence.Proofs.QueueProps
 import Cadence.Proofs.QueueCheck
 import Cadence.Proofs.Queue0Props
+import Cadence.Proofs.Queue0Run
 /-!
 # C08 — queuing sink: every accepted metric reaches the wrapped sink once, in order
 
@@ -97,5 +98,11 @@ theorem rendezvous_fifo_exactly_once {poll hh} {μ : Type} (s : Queue0.St μ) (h
 theorem rendezvous_in_hand_is_delivered {μ : Type} (s : Queue0.St μ) (m : μ) (hp : s.phase = .got (some m)) :
     ∃ s', Queue0.step s .wTake = some (s', .none) ∧ s'.wrappedLog = s.wrappedLog ++ [m] := by
   simp [Queue0.step, hp]
+
+/-- capacity 0: every state the correspondence's model run passes through (`Queue0.modelOp` in the
+quiescent schedule, refusals taken from the implementation) is a reachable state of the LTS, so the
+theorems about reachable states apply to what the driver computes for a `queue0` case -/
+theorem rendezvous_model_run_is_lts_run (hh : Bool) (ops : List (Queue.HOp × Bool)) :
+    Queue0.Reachable true hh (Queue0.modelFinal hh ops) := Queue0.modelFinal_reachable hh ops
 
 end C08
